@@ -79,9 +79,11 @@ def run_byte(facts, fn, bind, follow, pure=None, max_depth=4):
         pass
     return pe.effects
 
-def same_class_follow(cls_suffix):
+def same_class_follow(cls_suffix, exclude=()):
     def follow(callee, call):
-        return A.strip_targs(callee.get('cls') or '').endswith(cls_suffix)
+        if callee['n'] in exclude: return False
+        c = A.strip_targs(callee.get('cls') or '')
+        return c.endswith(cls_suffix) or ('::' + cls_suffix + '::') in c   # the class and its nested helper classes
     return follow
 
 # ------------------------------------------------------------------------------------------------
@@ -234,7 +236,130 @@ def compare_msgpack(b, r, o):
         return None
     return ('spec', 'unhandled spec row kind %s' % ev, 0)
 
+
+# ------------------------------------------------------------------------------------------------
+ARGW = {24: ('uint8', 1), 25: ('uint16', 2), 26: ('uint32', 4), 27: ('uint64', 8)}
+
+def cbor_pure(callee, call):
+    return callee['n'] in ('get_major_type', 'get_additional_information_value')
+
+def check_cbor(chk, tier):
+    rid = 'R07.cbor'
+    chk.rule(rid, 'basic_cbor_parser::read_item: for every initial byte of majors 0-5 and 7 the argument width/type, reserved '
+                  'additional-information values, event kind, UTF-8 validation and the simple/float table equal RFC 8949', floor=224)
+    facts = F.load(['cbor'], tier); chk.units.append('cbor')
+    sp = spec('cbor.json')
+    chk.require(sp['argument'].get('28-30', '').startswith('reserved'), 'cbor spec: reserved argument row missing')
+    fns = U.functions(facts, cls='basic_cbor_parser', name='read_item')
+    chk.require(fns, 'basic_cbor_parser::read_item not found')
+    # tagged composite readers are separate constructs (their own items are dispatched through read_item again)
+    follow = same_class_follow('basic_cbor_parser', exclude=('read_decimal_fraction', 'read_bigfloat', 'read_mdarray_header', 'read_extents'))
+    for fn in fns:
+        chk.analysed(fn)
+        inst = fn['q']
+        for b in range(256):
+            major, info = b >> 5, b & 0x1f
+            if major == 6: continue      # tags are consumed by read_tags before dispatch (covered by R07.cbor.tags)
+            pe = P.PEval(facts, fn, follow=follow, pure=cbor_pure, max_depth=5, max_effects=20000)
+            pe.head = b
+            try:
+                pe.exec_body(fn, {})
+            except P.Stop:
+                chk.broken('R07.cbor: effect budget exhausted for byte 0x%02x' % b)
+            o = Obs(pe.effects, skip_first_read=False)
+            bad = compare_cbor(b, major, info, o)
+            infoclass = 'info=%d' % info if info >= 20 else 'info<20'
+            if major != 7:
+                infoclass = 'info<24' if info < 24 else 'info=%d' % info
+            facts_ = {'byte': '0x%02x' % b, 'major': major, 'info': info, 'observed': o.summary(), 'instantiation': inst}
+            if bad:
+                chk.fail(rid, U.site(fn, 'major=%d %s' % (major, infoclass)) + ' ' + bad[0], fn['file'], bad[2] or fn['l'],
+                         'initial byte 0x%02x (major %d, info %d): %s' % (b, major, info, bad[1]), facts_, inst)
+            else:
+                chk.ok(rid, U.site(fn, 'byte=0x%02x' % b), facts_ if b in (0x05, 0x19, 0x3b, 0x65, 0x9f, 0xf9, 0xfb) else None)
+
+PRINCIPAL = {0: 'uint64_value', 1: 'int64_value', 2: 'byte_string_value', 3: 'string_value', 4: 'begin_array', 5: 'begin_object'}
+
+def compare_cbor(b, major, info, o):
+    evnames = [e[0] for e in o.events]
+    line = first_line(o)
+    data_reads = [r for r in o.reads if not r[1]]
+    if major == 7:
+        want = {20: ('bool_value', 0), 21: ('bool_value', 1), 22: ('null_value', 'none'), 23: ('null_value', 'undefined')}
+        if info in want:
+            ev = o.main_events()
+            if len(ev) != 1 or ev[0][0] != want[info][0]:
+                return ('event', 'expected %s, found %s' % (want[info][0], evnames or 'none'), line)
+            n, args, g, l = ev[0]
+            if n == 'bool_value' and args[0] != want[info][1]: return ('value', 'bool value %s' % args[0], l)
+            if n == 'null_value' and tag_of(args) != want[info][1]: return ('tag', 'null tag %s, expected %s' % (tag_of(args), want[info][1]), l)
+            return None
+        if info in (25, 26, 27):
+            name = 'half_value' if info == 25 else 'double_value'
+            ev = o.main_events()
+            if len(ev) != 1 or ev[0][0] != name: return ('event', 'expected %s, found %s' % (name, evnames or 'none'), line)
+            w = {25: 2, 26: 4, 27: 8}[info]
+            payload = [r for r in data_reads if r[0] != 1 or w == 1]
+            # the initial byte is consumed by a 1-byte read; the payload read follows
+            if not any(r[0] == w for r in data_reads): return ('payload', 'float payload of %d bytes not read (reads: %s)' % (w, [r[0] for r in data_reads]), ev[0][3])
+            ct = {25: 'unsigned short', 26: 'float', 27: 'double'}[info]
+            conv = [c for c in o.conv if not c[3]]
+            if not conv or conv[-1][0] != 'big_to_native' or conv[-1][1] != ct:
+                return ('type', 'float payload converted as %s, expected big_to_native<%s>' % (['%s<%s>' % (c[0], c[1]) for c in conv], ct), ev[0][3])
+            return None
+        # simple values 0..19, 24, reserved 28..30 and break (31) in item position: no value may be produced
+        if o.events: return ('event', 'major 7 info %d produces %s, expected an error' % (info, evnames), o.events[0][3])
+        if not o.main_errors(): return ('error', 'major 7 info %d stores no error' % info, line)
+        return None
+    # majors 0..5
+    reserved = info in (28, 29, 30) or (info == 31 and major in (0, 1))
+    if reserved:
+        # for arrays, the tag-4/5 composite readers (not inlined) are followed by their own string events: only the
+        # array's own event counts there
+        evs = [e for e in o.events if major != 4 or e[0] == PRINCIPAL[4]]
+        if evs:
+            return ('reserved', 'reserved additional information %d is decoded (events %s) instead of being rejected as not well-formed' % (info, sorted(set(e[0] for e in evs))), evs[0][3])
+        if not o.errors:
+            return ('reserved', 'reserved additional information %d stores no error' % info, line)
+        return None
+    name = PRINCIPAL[major]
+    if name not in evnames:
+        return ('event', 'expected a %s event, found %s' % (name, sorted(set(evnames)) or 'none'), line)
+    allowed = {name}
+    if major in (0, 2, 3): allowed |= {'string_value', 'byte_string_value', 'begin_array', 'end_array', 'uint64_value', 'int64_value', 'double_value', 'half_value', 'typed_array', 'begin_multi_dim', 'end_multi_dim'}
+    if major == 4: allowed |= {'string_value', 'byte_string_value', 'begin_array', 'end_array', 'uint64_value', 'int64_value', 'double_value', 'half_value', 'begin_multi_dim', 'end_multi_dim', 'typed_array'}
+    extra = [n for n in evnames if n not in allowed]
+    if extra: return ('event', 'unexpected events %s for major %d' % (sorted(set(extra)), major), line)
+    if info == 31:
+        return None    # indefinite length: chunk loop is covered by R07.cbor.chunks
+    # argument width
+    if info < 24:
+        big = [r for r in data_reads if r[0] != 1]
+        if big: return ('width', 'reads %s payload bytes for an immediate argument' % [r[0] for r in big], big[0][3])
+        if major in (0,):
+            ev = [e for e in o.main_events() if e[0] == name]
+            if ev and ev[0][1] and ev[0][1][0] != info: return ('value', 'event carries %s, expected %d' % (ev[0][1][0], info), ev[0][3])
+        if major in (4, 5):
+            ev = [e for e in o.events if e[0] == name and e[1] and isinstance(e[1][0], int)]
+            if ev and ev[0][1][0] != info: return ('length', 'container length %s, expected %d' % (ev[0][1][0], info), ev[0][3])
+        return None
+    t, w = ARGW[info]
+    # the argument may be read on each of several tag-dependent paths: accept a read of the right width on any path
+    if not any(r[0] == w for r in o.reads):
+        return ('width', 'argument of %d bytes not read (reads: %s)' % (w, sorted(set(str(r[0]) for r in o.reads))), line)
+    wrong = [r for r in data_reads if r[0] not in (1, w)]
+    if wrong: return ('width', 'reads %s bytes, expected %d' % ([r[0] for r in wrong], w), wrong[0][3])
+    if w > 1:
+        conv = [c for c in o.conv if c[2] == w] or [c for c in o.conv if not c[3]]
+        if not conv: return ('type', 'argument not converted from big-endian', line)
+        if conv[0][0] != 'big_to_native': return ('order', 'argument converted with %s' % conv[0][0], conv[0][4])
+        if conv[0][1] != CTYPE[t]: return ('type', 'argument converted as %s, expected %s' % (conv[0][1], t), conv[0][4])
+    if major == 3 and not o.validates:
+        return ('utf8', 'text string not UTF-8 validated', line)
+    return None
+
 def run(chk, tier, only_rule=None):
     chk.explanation = EXPLANATION
     chk.not_decided = NOT_DECIDED
     check_msgpack(chk, tier)
+    check_cbor(chk, tier)
